@@ -268,6 +268,9 @@ fn receive_path_case(t: &mut Tape, obs: &mut Obs) -> CaseResult {
     m[pos] = val;
     let use_all = t.bool();
     let whole = t.bool();
+    // a quarter of the chunked cases receive the frame undamaged: it is delivered exactly once, by
+    // the poll that finds its last byte
+    let intact_wanted = !whole;
     let now = profirust::time::Instant::ZERO;
     let mut phy = ChunkPhy::default();
     let mut poll = |phy: &mut ChunkPhy| -> Vec<RefFrame> {
@@ -303,6 +306,11 @@ fn receive_path_case(t: &mut Tape, obs: &mut Obs) -> CaseResult {
         // in chunks with a poll after each: whatever is delivered must be what the frame format
         // reads at the start of the bytes that were pending, and never more is consumed than pending
         // (the chunk PHY asserts the latter, like the crate's PHYs)
+        let intact = intact_wanted && !t.chance(3, 4);
+        if intact {
+            m = frame.clone();
+        }
+        let mut delivered = 0usize;
         let mut off = 0;
         let mut polls = 0u64;
         while off < m.len() {
@@ -320,6 +328,13 @@ fn receive_path_case(t: &mut Tape, obs: &mut Obs) -> CaseResult {
                 }
             }
             ensure!(before.len() - phy.buf.len() >= o, "consumed-less-than-delivered", "{} bytes consumed but {} delivered from {}", before.len() - phy.buf.len(), o, hex(&before));
+            delivered += got.len();
+            if intact {
+                ensure!(delivered == usize::from(off == m.len()), "intact-frame-lost", "the undamaged frame {} arrives in chunks: after {} of {} bytes {} telegram(s) were delivered and {} bytes are pending", hex(&m), off, m.len(), delivered, phy.buf.len());
+            }
+        }
+        if intact {
+            obs.label("chunked-undamaged");
         }
         obs.count("polls", polls);
         obs.label("chunked");
@@ -335,7 +350,7 @@ fn receive_path_case(t: &mut Tape, obs: &mut Obs) -> CaseResult {
 pub fn property() -> Property {
     Property {
         id: "C10",
-        rule: "cases: byte strings fed to Telegram::deserialize (and DataTelegram::deserialize under its caller contract) and compared with a reference decoder written from the frame format: all strings of length <= 2, all 3-byte strings starting with a delimiter, SD2 headers 68 LE LEr x (all (LE,LEr) pairs x 16 fourth bytes quick / all 256^3 thorough) each with a well-formed body of the announced length, whole and truncated/extended; valid frames with every single-bit flip at every position and every single-byte substitution at generated positions; random and mutated strings up to 262 bytes with all their prefixes; (receive_path) valid data frames / SC with one substituted byte through ProfibusPhy::receive_telegram / receive_all_telegrams on a chunk PHY: received whole nothing is ever delivered from it (polled until the receive path has got rid of it), received in chunks every delivered telegram is what the reference decoder reads at the start of the pending bytes and never more is consumed than pending. Non-trivial = the input starts with a start delimiter and is at least 3 bytes long; distinct by content hash.",
+        rule: "cases: byte strings fed to Telegram::deserialize (and DataTelegram::deserialize under its caller contract) and compared with a reference decoder written from the frame format: all strings of length <= 2, all 3-byte strings starting with a delimiter, SD2 headers 68 LE LEr x (all (LE,LEr) pairs x 16 fourth bytes quick / all 256^3 thorough) each with a well-formed body of the announced length, whole and truncated/extended; valid frames with every single-bit flip at every position and every single-byte substitution at generated positions; random and mutated strings up to 262 bytes with all their prefixes; (receive_path) valid data frames / SC with one substituted byte through ProfibusPhy::receive_telegram / receive_all_telegrams on a chunk PHY: received whole nothing is ever delivered from it (polled until the receive path has got rid of it), received in chunks every delivered telegram is what the reference decoder reads at the start of the pending bytes and never more is consumed than pending; a quarter of the chunked cases receive the frame undamaged, which is delivered exactly once, by the poll that finds its last byte. Non-trivial = the input starts with a start delimiter and is at least 3 bytes long; distinct by content hash.",
         assumptions: vec![
             "reference decoder (harness/src/refcodec.rs) is a faithful rendering of the acceptance conditions of the FDL frame format",
             "'asks for more data only for a proper prefix of a frame of the announced length' is read as: only while the input is shorter than the length the bytes present announce",
